@@ -88,7 +88,7 @@ var zzReadForms = []string{"variable", "var-statement", "parameter", "list-liter
 	"go-argument", "closure-result-after-defer", "two-targets-from-one-element", "variadic-parameter", "return-list",
 	"left-operand-of-binary-operator", "left-operand-of-comparison", "spread-assignment", "spread-var",
 	"value-ok-form", "spread-argument", "deferred-spread-argument", "switch-subject", "in-item", "map-literal-key", "indexed-container", "for-in-variable",
-	"left-operand-with-right-operand-shapes", "indexed-typed-container", "sliced-typed-container", "typed-map-literal-key", "implicit-result-after-defer"}
+	"left-operand-with-right-operand-shapes", "indexed-typed-container", "sliced-typed-container", "typed-map-literal-key", "implicit-result-after-defer", "deferred-variadic-script-argument", "deferred-variadic-go-argument", "go-variadic-go-argument"}
 
 // ZZ_C10_read_is_a_value: container kind x receiving form; old and new
 // payloads symbolic.
@@ -287,6 +287,31 @@ func ZZ_C10_read_is_a_value() {
 		// a deferred store does not alter it
 		src = "f = func() { defer func() { " + p0 + " = wnew }(); " + p0 + " }; [f()]"
 		want = []int64{v0}
+	case 31:
+		// arguments landing in the variadic part of a deferred / go call are values as well
+		src = "r = 0; f = func(vs...) { r = vs[0] }; g = func() { defer f(" + p0 + "); " + p0 + " = wnew }; g(); [r]"
+		want = []int64{v0}
+	case 32, 33:
+		var rec int64
+		recOK := false
+		e.Define("gv", func(xs ...interface{}) {
+			if len(xs) > 0 {
+				rec, recOK = xs[0].(int64)
+			}
+		})
+		e.Define("grec", func() int64 {
+			if !recOK {
+				return -1
+			}
+			return rec
+		})
+		if form == 32 {
+			src = "g = func() { defer gv(" + p0 + ", 1); " + p0 + " = wnew }; g(); [grec()]"
+		} else {
+			src = "done = make(chan int64, 1); h = func(vs...) { done <- vs[0] }; go h(" + p0 + "); " + p0 + " = wnew; [<-done]"
+		}
+		want = []int64{v0}
+		zz.Assume(zz.And(v0 != -1, v0 != w))
 	case 16, 17:
 		// `x, y = c` spreads a slice over its targets
 		if ck != 0 && ck != 1 {
@@ -641,4 +666,53 @@ func ZZ_C10_string_bytes() {
 	sl, _ := l[1].(string)
 	zz.Assertf(got == str[i:i+1], "C10.string-bytes/index-reads-the-addressed-byte", str)
 	zz.Assertf(sl == str[i:i+1], "C10.string-bytes/slice-reads-the-addressed-bytes", str)
+}
+
+// ZZ_C10_delete_removes_the_key: delete(m, k) removes the entry as Go's delete
+// does - whatever the entry holds (nil, a nil slice / map / pointer, the zero
+// value, an ordinary value) - and leaves the others; observed on the Go map
+// itself (length, key set), not through a read that yields nil for both a
+// missing key and a nil value.
+func ZZ_C10_delete_removes_the_key() {
+	v := zz.Int64()
+	var m interface{}
+	var has func(k string) bool
+	var length func() int
+	kind := zz.Choose(6)
+	switch kind {
+	case 0:
+		x := map[interface{}]interface{}{"a": nil, "b": v}
+		m, has, length = x, func(k string) bool { _, ok := x[k]; return ok }, func() int { return len(x) }
+	case 1:
+		x := map[string]interface{}{"a": nil, "b": v}
+		m, has, length = x, func(k string) bool { _, ok := x[k]; return ok }, func() int { return len(x) }
+	case 2:
+		x := map[string][]int64{"a": nil, "b": {v}}
+		m, has, length = x, func(k string) bool { _, ok := x[k]; return ok }, func() int { return len(x) }
+	case 3:
+		x := map[string]*int64{"a": nil, "b": &v}
+		m, has, length = x, func(k string) bool { _, ok := x[k]; return ok }, func() int { return len(x) }
+	case 4:
+		x := map[string]int64{"a": 0, "b": v}
+		m, has, length = x, func(k string) bool { _, ok := x[k]; return ok }, func() int { return len(x) }
+	case 5:
+		x := map[string]map[string]int64{"a": nil, "b": {"k": v}}
+		m, has, length = x, func(k string) bool { _, ok := x[k]; return ok }, func() int { return len(x) }
+	}
+	id := []string{"map[interface{}]interface{}-nil", "map[string]interface{}-nil", "nil-slice-value", "nil-pointer-value", "zero-value", "nil-map-value"}[kind]
+	e := env.NewEnv()
+	e.Define("m", m)
+	form := zz.Choose(3)
+	src := []string{`delete(m, "a")`, `k = "a"; delete(m, k)`, `n = 0; delete(m, "a"); for k in m { n++ }; n`}[form]
+	res, err := Execute(e, &Options{Debug: false}, src)
+	zz.Assertf(err == nil, "C10.delete/no-error/"+id, src)
+	zz.Assertf(!has("a") && length() == 1, "C10.delete/removes-the-addressed-entry/"+id, src)
+	zz.Assertf(has("b"), "C10.delete/leaves-the-other-entries/"+id, src)
+	if form == 2 && err == nil {
+		n, _ := res.(int64)
+		zz.Assertf(n == 1, "C10.delete/for-in-visits-the-remaining-entries/"+id, src)
+	}
+	// a missing key: no error, nothing changes
+	_, err = Execute(e, &Options{Debug: false}, `delete(m, "zz")`)
+	zz.Assertf(err == nil && length() == 1 && has("b"), "C10.delete/missing-key-is-a-no-op/"+id, src)
 }
